@@ -2,7 +2,7 @@ ID = "C04"
 
 PROP = {
     "level": "exploration",
-    "rule": ("one user flow written as YAML over {TransformAPICall (unnamed output), Filter on header x-k<i> (hit/miss), GenerateResponse (answers the request)}: "
+    "rule": ("0-3 quotas (fixed-window or concurrent) on the flow's own URL or on the wildcard pattern above it (each filter-tree node with quotas has one system flow; every matching quota's system-flow processor must run on the request, and the system flows acting on the response must run in the reverse of their request order); one user flow written as YAML over {TransformAPICall (unnamed output), Filter on header x-k<i> (hit/miss), GenerateResponse (answers the request)}: "
              "request direction = acyclic graph of 1-5 (one case in five: 6-10, with frequent fan-out) processors with conditional branches, connections listed in a generated order in half of the cases, unlistened outputs, joins, optional fan-out, edges to the stream end; "
              "response direction = 0-3 processors with or without a stream root plus one response connection per answering processor; 0-2 quotas (fixed / concurrent) on the "
              "same URL give system start/end flows; the transaction's request and response headers steer every Filter. The executed processors are read from the H2 events. "
